@@ -238,14 +238,34 @@ CURATED = {
     'ring3': ('S: A u | z B v | z z C w ; A: a B | e ; B: b C | f ; C: c A | g', ()),
     'chain_two_contexts': ('D: C s | h i j k C d ; C: | K T ; T: V C | E', ()),
     'ring2_nullable': ('S: A u | z B v ; A: a B | ; B: b A | f', ()),
+    # one item set {B -> p q t . , C -> t . u} reached from two left contexts, through states whose kernel items arrive
+    # in a different order (rule numbering: A < X < B < Y < C)
+    'two_paths': ('A: q C ; X: p A ; B: p q t ; Y: p q C ; C: t u ; S: k X | k B | l Y | l B', ()),
 }
 
 
 def curated():
     out = {}
     for k, (spec, precs) in CURATED.items():
-        out[k] = from_text(spec, precs)
+        out[k] = from_text(spec, precs, start='S' if k == 'two_paths' else None)
     return out
+
+
+def two_path_grammar(rnd):
+    """Variations of `two_paths`: a shared item set reached through a state built from a low-numbered rule with a
+    nonterminal after the dot plus a higher-numbered rule with a terminal after the dot, and through a state where
+    the same items appear in rule order. Prefix length, the order of the alternatives of S and decoy rules vary."""
+    k = rnd.randint(1, 3)
+    pre = ' '.join(['p'] * k)
+    tail = rnd.choice(['t u', 't u u', 't'])
+    mid = rnd.choice(['t', 't u'])
+    alts = ['k X', 'k B', 'l Y', 'l B']
+    rnd.shuffle(alts)
+    decoy = rnd.choice(['', ' ; D: d D | d', ' ; D: q'])
+    spec = 'A: q C ; X: %s A ; B: %s q %s ; Y: %s q C ; C: %s ; S: %s%s' % (pre, pre, mid, pre, tail, ' | '.join(alts), decoy)
+    if decoy:
+        spec = spec.replace('S: ', 'S: D z | ', 1) if 'D:' in decoy else spec
+    return from_text(spec, (), start='S')
 
 
 # ---------------------------------------------------------------- rendering
